@@ -403,6 +403,17 @@ func RunCheck(verifDir, repoDir, prop, tier string, seed int, overlay map[string
 		lock[prop] = names
 		b, _ := json.MarshalIndent(lock, "", " ")
 		os.WriteFile(filepath.Join(verifDir, "obligations.lock.json"), b, 0o644)
+		// the names of the locals of every function translated for this property, in declaration order: lets a
+		// later run recognise a local that was merely renamed
+		locals := map[string][]string{}
+		_ = readJSON(filepath.Join(verifDir, "locals.lock.json"), &locals)
+		for _, key := range funcsUnder {
+			if fn := eng.LookupFunc(key); fn != nil {
+				locals[key] = eng.LocalNames(fn)
+			}
+		}
+		lb, _ := json.MarshalIndent(locals, "", " ")
+		os.WriteFile(filepath.Join(verifDir, "locals.lock.json"), lb, 0o644)
 	}
 	sort.Slice(slows, func(i, j int) bool { return slows[i].s > slows[j].s })
 	var slowest []string
